@@ -195,3 +195,15 @@ func Release(validator *harness.Account, memo string, signers ...*harness.Accoun
 	msg := &evact.Release{ValidatorAddress: addrOf(validator)}
 	return harness.NewTx(action.RELEASE, msg, memo, signersOr(signers, validator)...)
 }
+
+// AllKinds lists the transaction kinds this package covers.
+func AllKinds() []action.Type {
+	return []action.Type{
+		action.SEND, action.SENDPOOL,
+		action.STAKE, action.UNSTAKE, action.WITHDRAW,
+		action.ADD_NETWORK_DELEGATE, action.NETWORK_UNDELEGATE,
+		action.REWARDS_WITHDRAW_NETWORK_DELEGATE, action.REWARDS_REINVEST_NETWORK_DELEGATE,
+		action.WITHDRAW_REWARD,
+		action.ALLEGATION, action.ALLEGATION_VOTE, action.RELEASE,
+	}
+}
